@@ -14,7 +14,7 @@ func init() {
 	register(&propertyDef{
 		id:    "C02",
 		title: "steps start only after their dependencies, with the data those produced",
-		rules: []ruleFunc{c02R1, c02R2, c02R3, c02R4, c02R5, c02R6, c02R7, c02R8, c02R9, c02R10},
+		rules: []ruleFunc{c02R1, c02R2, c02R3, c02R4, c02R5, c02R6, c02R7, c02R8, c02R9, c02R10, c02R11},
 		decided: "every expression kind that is resolved at run time is also wired into the DAG at prepare time (walker agreement, R1); every dependency of an expression, every lifecycle ordering and every one-of option becomes a DAG connection on every loop iteration (R2); " +
 			"every stage input field and every workflow output is walked for dependencies and is what the node later evaluates (R3); resolution, data publication and notification happen in that order in one critical section (R4); " +
 			"all DAG/data-model helpers run under the run lock (R5); the step receives the resolved, validated data of its own node (R6). The tree walkers descend into every element of maps and lists (R7). Shared: the run path writes nothing into prepared objects shared by all runs (R8 = C14.R1); starting.started is published only after the plugin executor was launched (R9 = C12.R13).",
